@@ -492,92 +492,112 @@ func isInterfaceVal(v ssa.Value) bool {
 // the operation have TraversePrefs.DontFollowAlias == true on every path.
 func ruleM5(c *Ctx, rule string) {
 	r := c.R
-	var target *ssa.Function
+	// every multiplyPreferences value built in the module: the lexer's factory for `*`, and any
+	// literal handed to multiply / a MULTIPLY_ASSIGN operation by other code (object
+	// construction, DeeplyAssign). Each must carry TraversePrefs.DontFollowAlias = true when it is used.
+	n := 0
+	haveFactory := false
 	for _, fn := range c.moduleFuncs() {
-		if fn.Parent() != nil && fn.Parent().Name() == "multiplyWithPrefs" {
-			target = fn
-		}
-	}
-	if target == nil {
-		r.Fatal("anchor missing: closure of multiplyWithPrefs")
-		return
-	}
-	// the local multiplyPreferences cell
-	var cell *ssa.Alloc
-	eachInstr(target, func(ins ssa.Instruction) {
-		if al, ok := ins.(*ssa.Alloc); ok && namedTypeName(al.Type()) == "multiplyPreferences" {
-			cell = al
-		}
-	})
-	if cell == nil {
-		r.Fatal("anchor moved: no multiplyPreferences local in %s", funcKey(target))
-		return
-	}
-	// uses: loads of the whole struct (to be boxed into Operation.Preferences)
-	var uses []ssa.Instruction
-	eachInstr(target, func(ins ssa.Instruction) {
-		if u, ok := ins.(*ssa.UnOp); ok && u.Op == token.MUL && u.X == ssa.Value(cell) {
-			uses = append(uses, u)
-		}
-	})
-	isSetTrue := func(ins ssa.Instruction) bool {
-		st, ok := ins.(*ssa.Store)
-		if !ok {
-			return false
-		}
-		fa, ok := st.Addr.(*ssa.FieldAddr)
-		if !ok || fieldName(fa) != "DontFollowAlias" {
-			return false
-		}
-		inner, ok := fa.X.(*ssa.FieldAddr)
-		if !ok || inner.X != ssa.Value(cell) || fieldName(inner) != "TraversePrefs" {
-			return false
-		}
-		cst, ok := st.Val.(*ssa.Const)
-		return ok && cst.Value != nil && cst.Value.Kind() == constant.Bool && constant.BoolVal(cst.Value)
-	}
-	isKill := func(ins ssa.Instruction) bool {
-		st, ok := ins.(*ssa.Store)
-		if !ok || isSetTrue(ins) {
-			return false
-		}
-		if st.Addr == ssa.Value(cell) {
-			return true // whole struct overwritten
-		}
-		if fa, ok := st.Addr.(*ssa.FieldAddr); ok {
-			if fa.X == ssa.Value(cell) && fieldName(fa) == "TraversePrefs" {
-				return true // whole TraversePrefs overwritten
-			}
-			if inner, ok := fa.X.(*ssa.FieldAddr); ok && inner.X == ssa.Value(cell) && fieldName(inner) == "TraversePrefs" && fieldName(fa) == "DontFollowAlias" {
-				return true // set to something else
-			}
-		}
-		return false
-	}
-	if len(uses) == 0 {
-		r.Fatal("anchor moved: multiplyPreferences local is never read in %s", funcKey(target))
-		return
-	}
-	for _, u := range uses {
-		key := "multiplyWithPrefs/TraversePrefs.DontFollowAlias"
-		bad := ""
-		// never set on some path from the entry
-		if pathAvoiding(target, target.Blocks[0], 0, u.Block(), instrIndex(u), isSetTrue) {
-			bad = "a path reaches the operation without setting it"
-		}
-		// or overwritten after being set
-		eachInstr(target, func(k ssa.Instruction) {
-			if isKill(k) && pathAvoiding(target, k.Block(), instrIndex(k)+1, u.Block(), instrIndex(u), isSetTrue) {
-				// the kill itself may be the initialising store that precedes the set on every path
-				bad = "the store at " + c.P.pos(k.Pos()) + " overwrites the traverse preferences after / instead of setting it"
+		var cells []*ssa.Alloc
+		eachInstr(fn, func(ins ssa.Instruction) {
+			if al, ok := ins.(*ssa.Alloc); ok && namedTypeName(al.Type()) == "multiplyPreferences" {
+				cells = append(cells, al)
 			}
 		})
-		if bad == "" {
-			r.Discharge(rule, key, c.P.pos(u.Pos()), "on every path the merge preferences carry DontFollowAlias = true when the operation is built")
-		} else {
-			r.Finding(rule, key, c.P.pos(u.Pos()), "merge preferences can reach the operation with DontFollowAlias unset ("+bad+"): `x * y` then follows merge keys / aliases of the copy into the anchored map of the operand and writes there")
+		for ci, cell := range cells {
+			// uses: loads of the whole struct (to be boxed into Operation.Preferences or passed to multiply)
+			var uses []ssa.Instruction
+			eachInstr(fn, func(ins ssa.Instruction) {
+				if u, ok := ins.(*ssa.UnOp); ok && u.Op == token.MUL && u.X == ssa.Value(cell) {
+					uses = append(uses, u)
+				}
+			})
+			if len(uses) == 0 {
+				continue
+			}
+			// a local that merely holds preferences received from elsewhere (a parameter, a type
+			// assertion on Operation.Preferences) is not a construction site: forwarding is rule M7
+			received := false
+			if cell.Referrers() != nil {
+				for _, ref := range *cell.Referrers() {
+					if st, ok := ref.(*ssa.Store); ok && st.Addr == ssa.Value(cell) {
+						if _, isConst := st.Val.(*ssa.Const); !isConst {
+							received = true
+						}
+					}
+				}
+			}
+			if received {
+				continue
+			}
+			if fn.Parent() != nil && fn.Parent().Name() == "multiplyWithPrefs" {
+				haveFactory = true
+			}
+			isSetTrue := func(ins ssa.Instruction) bool {
+				st, ok := ins.(*ssa.Store)
+				if !ok {
+					return false
+				}
+				fa, ok := st.Addr.(*ssa.FieldAddr)
+				if !ok || fieldName(fa) != "DontFollowAlias" {
+					return false
+				}
+				inner, ok := fa.X.(*ssa.FieldAddr)
+				if !ok || inner.X != ssa.Value(cell) || fieldName(inner) != "TraversePrefs" {
+					return false
+				}
+				cst, ok := st.Val.(*ssa.Const)
+				return ok && cst.Value != nil && cst.Value.Kind() == constant.Bool && constant.BoolVal(cst.Value)
+			}
+			isKill := func(ins ssa.Instruction) bool {
+				st, ok := ins.(*ssa.Store)
+				if !ok || isSetTrue(ins) {
+					return false
+				}
+				if st.Addr == ssa.Value(cell) {
+					return true // whole struct overwritten
+				}
+				if fa, ok := st.Addr.(*ssa.FieldAddr); ok {
+					if fa.X == ssa.Value(cell) && fieldName(fa) == "TraversePrefs" {
+						return true // whole TraversePrefs overwritten
+					}
+					if inner, ok := fa.X.(*ssa.FieldAddr); ok && inner.X == ssa.Value(cell) && fieldName(inner) == "TraversePrefs" && fieldName(fa) == "DontFollowAlias" {
+						return true // set to something else
+					}
+				}
+				return false
+			}
+			for _, u := range uses {
+				n++
+				key := "multiplyWithPrefs/TraversePrefs.DontFollowAlias"
+				if !(fn.Parent() != nil && fn.Parent().Name() == "multiplyWithPrefs") {
+					key = fmt.Sprintf("%s/multiplyPreferences#%d/TraversePrefs.DontFollowAlias", funcKey(fn), ci+1)
+				}
+				bad := ""
+				// never set on some path from the entry
+				if pathAvoiding(fn, fn.Blocks[0], 0, u.Block(), instrIndex(u), isSetTrue) {
+					bad = "a path reaches the use without setting it"
+				}
+				// or overwritten after being set
+				eachInstr(fn, func(k ssa.Instruction) {
+					if isKill(k) && pathAvoiding(fn, k.Block(), instrIndex(k)+1, u.Block(), instrIndex(u), isSetTrue) {
+						// the kill itself may be the initialising store that precedes the set on every path
+						bad = "the store at " + c.P.pos(k.Pos()) + " overwrites the traverse preferences after / instead of setting it"
+					}
+				})
+				if bad == "" {
+					r.Discharge(rule, key, c.P.pos(u.Pos()), "on every path the merge preferences carry DontFollowAlias = true when they are used")
+				} else {
+					r.Finding(rule, key, c.P.pos(u.Pos()), "merge preferences are used with DontFollowAlias unset ("+bad+"): the merge then follows merge keys / aliases of the copy into the anchored map of the operand and writes there")
+				}
+				break // one obligation per value: its first use
+			}
 		}
 	}
+	if !haveFactory {
+		r.Fatal("anchor missing: the multiplyPreferences built by the closure of multiplyWithPrefs")
+	}
+	_ = n
 }
 
 // ---- K-rules (C16) ------------------------------------------------------------------
